@@ -4,6 +4,7 @@ from __future__ import annotations
 
 import io
 import logging
+from collections import ChainMap
 from enum import Enum
 from textwrap import dedent, indent
 from typing import TYPE_CHECKING
@@ -27,6 +28,7 @@ from dissect.cstruct.types import (
 from dissect.cstruct.types.base import BaseArray
 from dissect.cstruct.types.enum import EnumMetaType
 from dissect.cstruct.types.packed import _struct
+from dissect.cstruct.types.structure import _anonymous_values
 
 if TYPE_CHECKING:
     from collections.abc import Iterator
@@ -89,6 +91,8 @@ class _ReadSourceGenerator:
 
         self.field_map: dict[str, Field] = {}
         self._token_id = 0
+        # The name of the context for expressions in the generated code ("c" once an anonymous member was read)
+        self._context = "r"
 
     def _map_field(self, field: Field) -> str:
         token = f"_{self._token_id}"
@@ -101,7 +105,17 @@ class _ReadSourceGenerator:
         symbols = {token: field.type for token, field in self.field_map.items()}
 
         code = python_compile(source, f"<compiled {self.name or 'anonymous'}._read>", "exec")
-        exec(code, {"BitBuffer": BitBuffer, "_struct": _struct, **symbols}, d := {})
+        exec(
+            code,
+            {
+                "BitBuffer": BitBuffer,
+                "ChainMap": ChainMap,
+                "_anonymous_values": _anonymous_values,
+                "_struct": _struct,
+                **symbols,
+            },
+            d := {},
+        )
         obj = d.popitem()[1]
         obj.__source__ = source
 
@@ -117,6 +131,7 @@ class _ReadSourceGenerator:
         if any(field.bits for field in self.fields):
             preamble += "bit_reader = BitBuffer(stream, cls.cs.endian)\n"
 
+        self._context = "r"
         read_code = "\n".join(self._generate_fields())
 
         outro = """
@@ -237,18 +252,24 @@ class _ReadSourceGenerator:
             yield f"stream.seek(-(stream.tell() - o) & (cls.alignment - 1), {io.SEEK_CUR})"
 
     def _generate_structure(self, field: Field) -> Iterator[str]:
+        token = self._map_field(field)
         template = f"""
         _s = stream.tell()
-        r["{field._name}"] = {self._map_field(field)}._read(stream, context=r)
+        r["{field._name}"] = {token}._read(stream, context={self._context})
         s["{field._name}"] = stream.tell() - _s
         """
 
         yield dedent(template)
 
+        if field.name is None:
+            # The fields of an anonymous member are fields of this structure to the expressions of later fields
+            yield f'c = ChainMap({self._context}, _anonymous_values({token}, r["{field._name}"]))\n'
+            self._context = "c"
+
     def _generate_array(self, field: Field) -> Iterator[str]:
         template = f"""
         _s = stream.tell()
-        r["{field._name}"] = {self._map_field(field)}._read(stream, context=r)
+        r["{field._name}"] = {self._map_field(field)}._read(stream, context={self._context})
         s["{field._name}"] = stream.tell() - _s
         """
 
